@@ -17,6 +17,9 @@
     line is a continuation line) and becomes the last entry of that item's content (`itms`, `blankIf`);
   * the "\n" line behind a list is NOT part of the last item (`ListItem.read` steps back over it): it is a
     `BlankLine` entry of the enclosing buffer;
+  * a list that is followed, after a "\n" line, by a list of ANOTHER marker type (`- a`, "\n", `1. x`): the line behind the
+    "\n" line carries a marker, so `ListItem.read` does not step back; the "\n" line stays in the last item of the first
+    list (`trail`), `List.read` ends the list at the foreign marker, and there is no `BlankLine` between the two lists;
   * no buffer is ever "loose" (the flag is only set for an unmatched line), so every `ListItem.loose` and
     every `List.loose` is false.
 
@@ -49,35 +52,46 @@ inductive MB where
   | leaf (b : Blk)
   | list (ordered : Bool) (start : Nat) (mk : Char) (pad : Nat) (loose : Bool) (items : List (List MB))
 
+def isListM : MB → Bool
+  | .list .. => true
+  | _ => false
+
+/-- two lists in a row -/
+def adj (t t' : MB) : Bool := isListM t && isListM t'
+
 mutual
-/-- the source lines of one block, as the renderer writes them -/
-def wr : MB → List Str
+/-- the source lines of one block, as the renderer writes them; `trail` (lists only): with the "\n" line that separates
+    the list from a following list of another type — the parser makes that line part of the last item -/
+def wr (trail : Bool) : MB → List Str
   | .leaf b => b.lines
-  | .list o n mk pad loose items => wrItems o mk pad loose n items
+  | .list o n mk pad loose items => wrItems trail o mk pad loose n items
 /-- siblings, separated by exactly one "\n" line -/
 def wrs : List MB → List Str
   | [] => []
   | t :: rest =>
     match rest with
-    | [] => wr t
-    | _ :: _ => wr t ++ ['\n'] :: wrs rest
+    | [] => wr false t
+    | t' :: _ => if adj t t' then wr true t ++ wrs rest else wr false t ++ ['\n'] :: wrs rest
 /-- the items of a list: marker and `pad` spaces before the first line of the item's blocks, as many spaces before
     every other line ("\n" lines stay "\n"); in a loose list one "\n" line between consecutive items -/
-def wrItems (o : Bool) (mk : Char) (pad : Nat) (loose : Bool) (n : Nat) : List (List MB) → List Str
+def wrItems (trail : Bool) (o : Bool) (mk : Char) (pad : Nat) (loose : Bool) (n : Nat) : List (List MB) → List Str
   | [] => []
   | it :: rest =>
     match rest with
-    | [] => indentDoc (leaderOf o n mk) pad (wrs it)
-    | _ :: _ => indentDoc (leaderOf o n mk) pad (wrs it) ++ (sepS loose ++ wrItems o mk pad loose (n + 1) rest)
+    | [] => indentDoc (leaderOf o n mk) pad (wrs it) ++ sepS trail
+    | _ :: _ => indentDoc (leaderOf o n mk) pad (wrs it) ++ (sepS loose ++ wrItems trail o mk pad loose (n + 1) rest)
 end
 
-def isListM : MB → Bool
-  | .list .. => true
-  | _ => false
+/-- lists of different marker types: bullet against ordered, or another bullet character / another delimiter -/
+def otherTypeB : MB → MB → Bool
+  | .list o _ mk _ _ _, .list o' _ mk' _ _ _ => o != o' || mk != mk'
+  | _, _ => false
 
-/-- two consecutive siblings: behind a list no list, and a first line that begins with a non-whitespace character and
-    carries no list marker (`stopLineB`) — otherwise the line would continue the last item or open another item -/
-def sepOkM (t t' : MB) : Bool := !isListM t || (!isListM t' && stopLineB ((wr t').headD []))
+/-- two consecutive siblings: behind a list comes either a list of another marker type (a list of the same type would
+    be more items of the first), or a block whose first line begins with a non-whitespace character and carries no list
+    marker (`stopLineB`) — otherwise the line would continue the last item or open another item -/
+def sepOkM (t t' : MB) : Bool :=
+  !isListM t || (if isListM t' then otherTypeB t t' else stopLineB ((wr false t').headD []))
 
 mutual
 /-- normal form (decidable).  Leaf: `Blk.ok`.  List:
@@ -106,24 +120,27 @@ def blankIf (b : Bool) (n : Nat) : List Entry := if b then [.blankLine n n] else
 
 mutual
 /-- the parse-buffer entry expected for a block whose first line is line `n` (ghost origin = line number) -/
-def ent (n : Nat) : MB → Entry
+def ent (trail : Bool) (n : Nat) : MB → Entry
   | .leaf b => itemEntry n n b
-  | .list o s mk pad loose items => .list (itms o mk pad loose s n items) n n
-/-- siblings: one `BlankLine` entry per separator line -/
+  | .list o s mk pad loose items => .list (itms trail o mk pad loose s n items) n n
+/-- siblings: one `BlankLine` entry per separator line — except between two lists, where the line is in the first list -/
 def ents (n : Nat) : List MB → List Entry
   | [] => []
   | t :: rest =>
     match rest with
-    | [] => [ent n t]
-    | _ :: _ => ent n t :: .blankLine (n + (wr t).length) (n + (wr t).length) :: ents (n + (wr t).length + 1) rest
-/-- the items: content = the entries of the item's blocks, and — for an item of a loose list that is not the last one —
-    the `BlankLine` of the separator line behind it; never loose; indentation 0; content offset = marker width + pad -/
-def itms (o : Bool) (mk : Char) (pad : Nat) (loose : Bool) (s : Nat) (n : Nat) : List (List MB) → List Item
+    | [] => [ent false n t]
+    | t' :: _ =>
+      if adj t t' then ent true n t :: ents (n + (wr true t).length) rest
+      else ent false n t :: .blankLine (n + (wr false t).length) (n + (wr false t).length) :: ents (n + (wr false t).length + 1) rest
+/-- the items: content = the entries of the item's blocks, and — for an item of a loose list that is not the last one,
+    and for the last item of a list with `trail` — the `BlankLine` of the separator line behind it; never loose;
+    indentation 0; content offset = marker width + pad -/
+def itms (trail : Bool) (o : Bool) (mk : Char) (pad : Nat) (loose : Bool) (s : Nat) (n : Nat) : List (List MB) → List Item
   | [] => []
   | it :: rest =>
-    .mk (ents n it ++ blankIf (loose && !rest.isEmpty) (n + (wrs it).length)) false 0 ((leaderOf o s mk).length + pad)
-        (leaderOf o s mk) n n
-      :: itms o mk pad loose (s + 1) (n + (wrs it).length + (sepS loose).length) rest
+    .mk (ents n it ++ blankIf ((loose && !rest.isEmpty) || (trail && rest.isEmpty)) (n + (wrs it).length)) false 0
+        ((leaderOf o s mk).length + pad) (leaderOf o s mk) n n
+      :: itms trail o mk pad loose (s + 1) (n + (wrs it).length + (sepS loose).length) rest
 end
 
 mutual
@@ -139,21 +156,33 @@ def needItemsM : List (List MB) → Nat
   | it :: rest => needsM it + needItemsM rest + 2
 end
 
-theorem wrs_cons2 (t t' : MB) (r : List MB) : wrs (t :: t' :: r) = wr t ++ ['\n'] :: wrs (t' :: r) := by simp [wrs]
-theorem wrs_single (t : MB) : wrs [t] = wr t := by simp [wrs]
-theorem wrItems_single (o : Bool) (mk : Char) (pad : Nat) (loose : Bool) (n : Nat) (it : List MB) :
-    wrItems o mk pad loose n [it] = indentDoc (leaderOf o n mk) pad (wrs it) := by simp [wrItems]
-theorem wrItems_cons2 (o : Bool) (mk : Char) (pad : Nat) (loose : Bool) (n : Nat) (it it' : List MB) (r : List (List MB)) :
-    wrItems o mk pad loose n (it :: it' :: r) =
-      indentDoc (leaderOf o n mk) pad (wrs it) ++ (sepS loose ++ wrItems o mk pad loose (n + 1) (it' :: r)) := by
+def trailOf (t : MB) (rest : List MB) : Bool :=
+  match rest with
+  | t' :: _ => adj t t'
+  | [] => false
+
+theorem wrs_single (t : MB) : wrs [t] = wr false t := by simp [wrs]
+theorem wrs_cons_sep (t t' : MB) (r : List MB) (h : adj t t' = false) :
+    wrs (t :: t' :: r) = wr false t ++ ['\n'] :: wrs (t' :: r) := by simp [wrs, h]
+theorem wrs_cons_adj (t t' : MB) (r : List MB) (h : adj t t' = true) :
+    wrs (t :: t' :: r) = wr true t ++ wrs (t' :: r) := by simp [wrs, h]
+theorem wrItems_single (trail o : Bool) (mk : Char) (pad : Nat) (loose : Bool) (n : Nat) (it : List MB) :
+    wrItems trail o mk pad loose n [it] = indentDoc (leaderOf o n mk) pad (wrs it) ++ sepS trail := by simp [wrItems]
+theorem wrItems_cons2 (trail o : Bool) (mk : Char) (pad : Nat) (loose : Bool) (n : Nat) (it it' : List MB) (r : List (List MB)) :
+    wrItems trail o mk pad loose n (it :: it' :: r) =
+      indentDoc (leaderOf o n mk) pad (wrs it) ++ (sepS loose ++ wrItems trail o mk pad loose (n + 1) (it' :: r)) := by
   simp [wrItems]
 theorem needsM_cons (t : MB) (rest : List MB) : needsM (t :: rest) = needM t + needsM rest + 14 := by simp [needsM]
 theorem needItemsM_cons (it : List MB) (rest : List (List MB)) : needItemsM (it :: rest) = needsM it + needItemsM rest + 2 := by
   simp [needItemsM]
-theorem ents_single (n : Nat) (t : MB) : ents n [t] = [ent n t] := by simp [ents]
-theorem ents_cons2 (n : Nat) (t t' : MB) (r : List MB) :
-    ents n (t :: t' :: r) = ent n t :: .blankLine (n + (wr t).length) (n + (wr t).length) :: ents (n + (wr t).length + 1) (t' :: r) := by
-  simp [ents]
+theorem ents_single (n : Nat) (t : MB) : ents n [t] = [ent false n t] := by simp [ents]
+theorem ents_cons_sep (n : Nat) (t t' : MB) (r : List MB) (h : adj t t' = false) :
+    ents n (t :: t' :: r) = ent false n t :: .blankLine (n + (wr false t).length) (n + (wr false t).length) ::
+      ents (n + (wr false t).length + 1) (t' :: r) := by
+  simp [ents, h]
+theorem ents_cons_adj (n : Nat) (t t' : MB) (r : List MB) (h : adj t t' = true) :
+    ents n (t :: t' :: r) = ent true n t :: ents (n + (wr true t).length) (t' :: r) := by
+  simp [ents, h]
 
 /-! ### What normal form gives -/
 
@@ -197,12 +226,48 @@ theorem wrs_cons_of_doc (it : List MB) (h : itemDocOk (wrs it) = true) : ∃ c0 
   | nil => rw [hw] at h; simp [itemDocOk] at h
   | cons c0 cs => exact ⟨c0, cs, rfl⟩
 
-theorem wrItems_head (o : Bool) (mk : Char) (pad : Nat) (loose : Bool) (n : Nat) (it : List MB) (rest : List (List MB))
+theorem wrItems_head (trail o : Bool) (mk : Char) (pad : Nat) (loose : Bool) (n : Nat) (it : List MB) (rest : List (List MB))
     (c0 : Str) (cs : List Str) (h : wrs it = c0 :: cs) :
-    ∃ tl, wrItems o mk pad loose n (it :: rest) = (leaderOf o n mk ++ List.replicate pad ' ' ++ c0) :: tl := by
+    ∃ tl, wrItems trail o mk pad loose n (it :: rest) = (leaderOf o n mk ++ List.replicate pad ' ' ++ c0) :: tl := by
   cases rest with
   | nil => rw [wrItems_single, h]; exact ⟨_, rfl⟩
   | cons a b => rw [wrItems_cons2, h]; exact ⟨_, rfl⟩
+
+/-- the first line of a block (it does not depend on `trail`) -/
+def firstOf (t : MB) : Str := (wr false t).headD []
+
+theorem wr_head (nw : Bool) (t : MB) (h : t.ok nw = true) (tr : Bool) : ∃ ss, wr tr t = firstOf t :: ss := by
+  cases t with
+  | leaf b =>
+    have hne := item_lines_len_pos b (by simpa [MB.ok] using h)
+    cases hb : b.lines with
+    | nil => exact absurd hb hne
+    | cons s0 ss => exact ⟨ss, by simp [wr, firstOf, hb]⟩
+  | list o n mk pad loose items =>
+    have hl := listOkM_of nw o n mk pad loose items h
+    cases items with
+    | nil => exact absurd rfl hl.ne
+    | cons it r =>
+      obtain ⟨_, _, _, hdoc, _, _⟩ := okItemsM_cons nw o mk pad n it r hl.its
+      obtain ⟨c0, cs, hw⟩ := wrs_cons_of_doc it hdoc
+      obtain ⟨tl, htl⟩ := wrItems_head tr o mk pad loose n it r c0 cs hw
+      obtain ⟨tl0, htl0⟩ := wrItems_head false o mk pad loose n it r c0 cs hw
+      exact ⟨tl, by simp [wr, firstOf, htl, htl0]⟩
+
+theorem wrs_head (nw : Bool) (t : MB) (r : List MB) (h : t.ok nw = true) (tail : Bool) :
+    ∃ ss, wrs (t :: r) ++ sepS tail = firstOf t :: ss := by
+  cases r with
+  | nil =>
+    obtain ⟨ss, hs⟩ := wr_head nw t h false
+    rw [wrs_single, hs]; exact ⟨_, rfl⟩
+  | cons t' r' =>
+    cases ha : adj t t' with
+    | false =>
+      obtain ⟨ss, hs⟩ := wr_head nw t h false
+      rw [wrs_cons_sep t t' r' ha, hs]; exact ⟨_, rfl⟩
+    | true =>
+      obtain ⟨ss, hs⟩ := wr_head nw t h true
+      rw [wrs_cons_adj t t' r' ha, hs]; exact ⟨_, rfl⟩
 
 theorem nlEnd_of_oneLine (l : Str) (h : oneLine l = true) : NlEnd l := by
   simp only [oneLine, Bool.and_eq_true, beq_iff_eq, List.all_eq_true, Bool.not_eq_eq_eq_not, Bool.not_true] at h
@@ -223,6 +288,37 @@ theorem stopLine_ofM (s : Str) (h : stopLineB s = true) (hl : NlEnd s) : StopLin
     simp only [Bool.not_eq_eq_eq_not, Bool.not_true] at h1
     exact parseContinuation_lead c r W hW (by rintro rfl; revert h1; decide) (by rintro rfl; revert h1; decide)
       (by rintro rfl; revert h1; decide)
+
+/-- markers of lists of different types are of different types for `List.same_marker_type` -/
+theorem otherType_marker (o o' : Bool) (mk mk' : Char) (n0 n' : Nat) (h : (o != o' || mk != mk') = true)
+    (h0 : leaderOk o (leaderOf o n0 mk) = true) (h1 : leaderOk o' (leaderOf o' n' mk') = true) :
+    sameMarkerType (leaderOf o n0 mk) (leaderOf o' n' mk') = false := by
+  cases o with
+  | false =>
+    cases o' with
+    | false =>
+      have hne : mk ≠ mk' := by simpa using h
+      simp [leaderOf, sameMarkerType, hne]
+    | true =>
+      obtain ⟨d, e, hd, _, hd1, _, _⟩ := leaderOk_ordered _ h1
+      simp only [leaderOf, if_true, Bool.false_eq_true, if_false] at hd ⊢
+      rw [hd]
+      simp only [sameMarkerType, List.length_singleton, beq_self_eq_true, if_true, beq_eq_false_iff_ne, ne_eq]
+      intro e'
+      have := congrArg List.length e'
+      simp only [List.length_singleton, List.length_append] at this
+      omega
+  | true =>
+    obtain ⟨d, e, hd, _, hd1, _, _⟩ := leaderOk_ordered _ h0
+    have hdn : Html.natDigits n0 ≠ [] := by
+      simp only [leaderOf, if_true] at hd
+      have e1 : Html.natDigits n0 = d := (List.append_inj' hd (by simp)).1
+      rw [e1]; intro e0; rw [e0] at hd1; simp at hd1
+    cases o' with
+    | false => simp [sameMarkerType, leaderOf, hdn]
+    | true =>
+      have hne : mk ≠ mk' := by simpa using h
+      simp [sameMarkerType, leaderOf, hne]
 
 /-! ### One leaf, anywhere in a buffer (as `tokLoop_item_step`, for any numbering of the lines) -/
 
@@ -263,18 +359,35 @@ theorem tokLoop_leaf_step (cfg : Cfg) (hty : cfg.types = markdownTypes) (it : Bl
 
 /-! ### The claims -/
 
+/-- the first line of a list of another marker type than `o`, `mk`: it begins with a marker character, carries a marker
+    that `List.same_marker_type` tells apart from every marker of the list, and is no thematic break -/
+def OtherList (o : Bool) (mk : Char) (s : Str) : Prop :=
+  ∃ c r mm, s = c :: r ∧ LeadChar c ∧ parseMarker s = some mm ∧ Scan.thematicBreak s = false ∧
+    ∀ n0, leaderOk o (leaderOf o n0 mk) = true → sameMarkerType (leaderOf o n0 mk) mm.2.2.1 = false
+
+/-- what follows the lines of a list in its buffer: `trail` — the marker line of a list of another type (the list's own
+    lines end with the "\n" line); otherwise `ComposeL.PostOk` -/
+def PostI : Bool → Bool → Char → List Line → Prop
+  | true, o, mk, post => ∃ l' post', post = l' :: post' ∧ OtherList o mk l'.s
+  | false, _, _, post => PostOk post
+
 /-- what may follow the lines of a block in its buffer: nothing, or a "\n" line — and behind a list that line is
-    followed by nothing or by a line that neither continues the last item nor carries a marker -/
-def PostM (t : MB) (post : List Line) : Prop :=
-  post = [] ∨ ∃ nlL rest, post = nlL :: rest ∧ nlL.s = ['\n'] ∧ (isListM t = true → ∀ s, rest.head? = some s → StopLine s.s)
+    followed by nothing or by a line that neither continues the last item nor carries a marker; with `trail`: the marker
+    line of a list of another type -/
+def PostM : Bool → MB → List Line → Prop
+  | true, .list o _ mk _ _ _, post => PostI true o mk post
+  | true, .leaf _, _ => False
+  | false, t, post =>
+    post = [] ∨ ∃ nlL rest, post = nlL :: rest ∧ nlL.s = ['\n'] ∧ (isListM t = true → ∀ s, rest.head? = some s → StopLine s.s)
 
 /-- one iteration of the dispatch loop on the first line of a written block, anywhere in a buffer: exactly the block's
     lines are consumed, exactly its entry is appended, the state is unchanged -/
-def StepClaim (cfg : Cfg) (t : MB) : Prop :=
+def StepClaim (cfg : Cfg) (trail : Bool) (t : MB) : Prop :=
   ∀ (pre post : List Line) (start k : Nat) (st : St) (g : Nat) (acc : List Entry) (lo : Bool),
-    start + pre.length = k + 1 → needM t ≤ g → PostM t post →
-    tokLoop cfg (g + 1) ⟨pre ++ (numbered k (wr t) ++ post), pre.length, start⟩ st acc lo =
-      tokLoop cfg g ⟨(pre ++ numbered k (wr t)) ++ post, (pre ++ numbered k (wr t)).length, start⟩ st (ent (k + 1) t :: acc) lo
+    start + pre.length = k + 1 → needM t ≤ g → PostM trail t post →
+    tokLoop cfg (g + 1) ⟨pre ++ (numbered k (wr trail t) ++ post), pre.length, start⟩ st acc lo =
+      tokLoop cfg g ⟨(pre ++ numbered k (wr trail t)) ++ post, (pre ++ numbered k (wr trail t)).length, start⟩ st
+        (ent trail (k + 1) t :: acc) lo
 
 /-- siblings at the end of a buffer, with or without a final "\n" line (the buffer of an item that is not the last one
     of a loose list ends in one) -/
@@ -296,13 +409,13 @@ def LdNmM (o : Bool) (mk : Char) (pad n : Nat) (items : List (List MB)) (ld : Op
     nm = some (0, (leaderOf o n mk).length + pad, leaderOf o n mk, firstLn items))
 
 /-- `List.read` over the written items, anywhere in a buffer -/
-def ItemsClaimM (cfg : Cfg) (o : Bool) (mk : Char) (pad : Nat) (loose : Bool) (n : Nat) (items : List (List MB)) : Prop :=
+def ItemsClaimM (cfg : Cfg) (trail : Bool) (o : Bool) (mk : Char) (pad : Nat) (loose : Bool) (n : Nat) (items : List (List MB)) : Prop :=
   ∀ (pre post : List Line) (start k : Nat) (st : St) (gas : Nat) (acc : List Item) ld nm,
-    start + pre.length = k + 1 → needItemsM items ≤ gas → PostOk post → LdNmM o mk pad n items ld nm →
-    readList cfg gas ⟨pre ++ numbered k (wrItems o mk pad loose n items) ++ post, pre.length, start⟩ st ld nm acc =
-      .ok (acc.reverse ++ itms o mk pad loose n (k + 1) items,
-           ⟨pre ++ numbered k (wrItems o mk pad loose n items) ++ post,
-            pre.length + (wrItems o mk pad loose n items).length, start⟩, st)
+    start + pre.length = k + 1 → needItemsM items ≤ gas → PostI trail o mk post → LdNmM o mk pad n items ld nm →
+    readList cfg gas ⟨pre ++ numbered k (wrItems trail o mk pad loose n items) ++ post, pre.length, start⟩ st ld nm acc =
+      .ok (acc.reverse ++ itms trail o mk pad loose n (k + 1) items,
+           ⟨pre ++ numbered k (wrItems trail o mk pad loose n items) ++ post,
+            pre.length + (wrItems trail o mk pad loose n items).length, start⟩, st)
 
 theorem otherMarkerM (o : Bool) (mk : Char) (pad n : Nat) (items : List (List MB)) (ld nm)
     (h : LdNmM o mk pad n items ld nm) (hok : leaderOk o (leaderOf o n mk) = true) : otherMarkerType ld nm = false := by
@@ -324,10 +437,10 @@ theorem nodes_tokenize (cfg : Cfg) (ts : List MB) (hN : NodesClaimM cfg ts) (tai
 
 /-! ### `List.read` over the written items -/
 
-/-- the last item -/
+/-- the last item, followed by nothing, or by a "\n" line that `ListItem.read` steps back over -/
 theorem items_lastM (cfg : Cfg) (nw o : Bool) (mk : Char) (pad : Nat) (loose : Bool) (n : Nat) (it : List MB)
     (h1 : 1 ≤ pad) (h4 : pad ≤ 4) (hok : MB.okItems nw o mk pad n [it] = true) (hN : NodesClaimM cfg it) :
-    ItemsClaimM cfg o mk pad loose n [it] := by
+    ItemsClaimM cfg false o mk pad loose n [it] := by
   intro pre post start k st gas acc ld nm hk hg hpost hln
   obtain ⟨_, _, hlead, hdoc, _, _⟩ := okItemsM_cons nw o mk pad n it [] hok
   have hm := listLeader_of o _ hlead
@@ -344,15 +457,57 @@ theorem items_lastM (cfg : Cfg) (nw o : Bool) (mk : Char) (pad : Nat) (loose : B
   simp only [sepS, Bool.false_eq_true, if_false, List.append_nil, hw, blankIf] at htok
   have hom := otherMarkerM o mk pad n [it] ld nm hln hlead
   rw [wrItems_single, hw]
+  simp only [sepS, Bool.false_eq_true, if_false, List.append_nil]
   rw [readList_step_stop cfg g _ st ld nm acc _ _ _ _ _ _ _ _ _ _ hom hil htok]
-  simp only [itms, List.isEmpty_nil, Bool.not_true, Bool.and_false, blankIf, Bool.false_eq_true, if_false, List.append_nil,
-    indentDoc, List.length_cons, List.length_map]
+  simp only [itms, List.isEmpty_nil, Bool.not_true, Bool.and_false, Bool.false_and, Bool.or_self, blankIf, Bool.false_eq_true,
+    if_false, List.append_nil, indentDoc, List.length_cons, List.length_map]
+
+/-- the last item, followed by a "\n" line and the marker line of a list of another type: the "\n" line stays in the item,
+    `List.read` stops at the foreign marker -/
+theorem items_lastT (cfg : Cfg) (nw o : Bool) (mk : Char) (pad : Nat) (loose : Bool) (n : Nat) (it : List MB)
+    (h1 : 1 ≤ pad) (h4 : pad ≤ 4) (hok : MB.okItems nw o mk pad n [it] = true) (hN : NodesClaimM cfg it) :
+    ItemsClaimM cfg true o mk pad loose n [it] := by
+  intro pre post start k st gas acc ld nm hk hg hpost hln
+  obtain ⟨l', post', rfl, c, r, mm, hl's, hc, hpm', htb', hother⟩ := hpost
+  obtain ⟨_, _, hlead, hdoc, _, _⟩ := okItemsM_cons nw o mk pad n it [] hok
+  have hm := listLeader_of o _ hlead
+  obtain ⟨c0, cs, hw⟩ := wrs_cons_of_doc it hdoc
+  rw [hw] at hdoc
+  obtain ⟨g, rfl⟩ : ∃ g, gas = g + 1 := ⟨gas - 1, by rw [needItemsM_cons] at hg; omega⟩
+  have hg' : needsM it + 1 ≤ g := by rw [needItemsM_cons] at hg; omega
+  have hprev : nm = none ∨ nm = some (0, (leaderOf o n mk).length + pad, leaderOf o n mk, c0) := by
+    rcases hln with ⟨_, h⟩ | ⟨_, _, _, h⟩
+    · exact Or.inl h
+    · right; rw [h]; simp [firstLn, hw]
+  have hnc : parseContinuation l'.s ((leaderOf o n mk).length + pad) = none := by
+    rw [hl's]
+    exact parseContinuation_lead c _ _ (by omega) hc.n_sp hc.n_tab (by rintro rfl; exact absurd hc.nsp (by decide))
+  have hne : NoEarly l'.s := by
+    rw [hl's]
+    refine lead_noEarly hc _ ?_
+    rw [← hl's]
+    exact htb'
+  have hil := item_lines_next cfg _ hm pad h1 h4 c0 cs hdoc true pre post' l' start k hk mm hnc hpm' hne nm hprev
+  have htok := nodes_tokenize cfg it hN true k st g hg'
+  rw [hw] at htok
+  have hom := otherMarkerM o mk pad n [it] ld nm hln hlead
+  rw [wrItems_single, hw]
+  rw [readList_step_next cfg g _ st ld nm acc _ _ _ _ _ _ _ _ _ _ _ hom hil htok]
+  obtain ⟨g', rfl⟩ : ∃ g', g = g' + 1 := ⟨g - 1, by omega⟩
+  have hot : otherMarkerType (some (ld.getD (leaderOf o n mk))) (some mm) = true := by
+    simp only [otherMarkerType, Bool.not_eq_eq_eq_not, Bool.not_true]
+    rcases hln with ⟨rfl, _⟩ | ⟨n0, rfl, h0, _⟩
+    · exact hother n hlead
+    · exact hother n0 h0
+  simp only [readList, hot, if_true]
+  simp only [itms, List.isEmpty_nil, Bool.not_true, Bool.and_false, Bool.true_and, Bool.false_or, Bool.and_false, blankIf,
+    if_true, sepS, indentDoc, List.length_cons, List.length_map, List.length_append, List.length_nil, List.reverse_cons, hw]
 
 /-- an item and the items behind it -/
-theorem items_consM (cfg : Cfg) (nw o : Bool) (mk : Char) (pad : Nat) (loose : Bool) (n : Nat) (it it' : List MB) (r : List (List MB))
+theorem items_consM (cfg : Cfg) (trail : Bool) (nw o : Bool) (mk : Char) (pad : Nat) (loose : Bool) (n : Nat) (it it' : List MB) (r : List (List MB))
     (h1 : 1 ≤ pad) (h4 : pad ≤ 4) (hok : MB.okItems nw o mk pad n (it :: it' :: r) = true) (hN : NodesClaimM cfg it)
-    (hR : ItemsClaimM cfg o mk pad loose (n + 1) (it' :: r)) :
-    ItemsClaimM cfg o mk pad loose n (it :: it' :: r) := by
+    (hR : ItemsClaimM cfg trail o mk pad loose (n + 1) (it' :: r)) :
+    ItemsClaimM cfg trail o mk pad loose n (it :: it' :: r) := by
   intro pre post start k st gas acc ld nm hk hg hpost hln
   obtain ⟨_, _, hlead, hdoc, _, hok'⟩ := okItemsM_cons nw o mk pad n it (it' :: r) hok
   obtain ⟨_, _, hlead', hdoc', htb', _⟩ := okItemsM_cons nw o mk pad (n + 1) it' r hok'
@@ -372,13 +527,13 @@ theorem items_consM (cfg : Cfg) (nw o : Bool) (mk : Char) (pad : Nat) (loose : B
     · exact Or.inl h
     · right; rw [h]; simp [firstLn, hw]
   -- the lines of the list, split behind the first item
-  obtain ⟨tl, htl⟩ := wrItems_head o mk pad loose (n + 1) it' r (ch' :: r0') cs' hw'
+  obtain ⟨tl, htl⟩ := wrItems_head trail o mk pad loose (n + 1) it' r (ch' :: r0') cs' hw'
   let k2 := k + (cs.length + 1 + (sepS loose).length)
   have hlen : (indentDoc (leaderOf o n mk) pad (c0 :: cs) ++ sepS loose).length = cs.length + 1 + (sepS loose).length := by
     simp [indentDoc]; omega
-  have hsplit : numbered k (wrItems o mk pad loose n (it :: it' :: r)) =
+  have hsplit : numbered k (wrItems trail o mk pad loose n (it :: it' :: r)) =
       numbered k (indentDoc (leaderOf o n mk) pad (c0 :: cs) ++ sepS loose) ++
-        numbered k2 (wrItems o mk pad loose (n + 1) (it' :: r)) := by
+        numbered k2 (wrItems trail o mk pad loose (n + 1) (it' :: r)) := by
     rw [wrItems_cons2, hw, ← List.append_assoc, numbered_append, hlen]
   -- the marker line of the next item
   obtain ⟨c, m'', hmc, hc⟩ := hm'.lead
@@ -386,7 +541,7 @@ theorem items_consM (cfg : Cfg) (nw o : Bool) (mk : Char) (pad : Nat) (loose : B
   have hl's : l'.s = c :: (m'' ++ List.replicate pad ' ' ++ ch' :: r0') := by
     show leaderOf o (n + 1) mk ++ List.replicate pad ' ' ++ ch' :: r0' = _
     rw [hmc]; simp
-  have hnext : numbered k2 (wrItems o mk pad loose (n + 1) (it' :: r)) = l' :: numbered (k2 + 1) tl := by
+  have hnext : numbered k2 (wrItems trail o mk pad loose (n + 1) (it' :: r)) = l' :: numbered (k2 + 1) tl := by
     rw [htl, numbered_cons]
   have hnc : parseContinuation l'.s ((leaderOf o n mk).length + pad) = none := by
     rw [hl's]
@@ -402,14 +557,14 @@ theorem items_consM (cfg : Cfg) (nw o : Bool) (mk : Char) (pad : Nat) (loose : B
   have htok := nodes_tokenize cfg it hN loose k st g hg1
   rw [hw] at htok
   have hom := otherMarkerM o mk pad n (it :: it' :: r) ld nm hln hlead
-  have hbuf : pre ++ numbered k (wrItems o mk pad loose n (it :: it' :: r)) ++ post =
+  have hbuf : pre ++ numbered k (wrItems trail o mk pad loose n (it :: it' :: r)) ++ post =
       pre ++ numbered k (indentDoc (leaderOf o n mk) pad (c0 :: cs) ++ sepS loose) ++ l' :: (numbered (k2 + 1) tl ++ post) := by
     rw [hsplit, hnext]; simp
   rw [hbuf, readList_step_next cfg g _ st ld nm acc _ _ _ _ _ _ _ _ _ _ _ hom hil htok]
   -- the items behind
   have hbuf2 : pre ++ numbered k (indentDoc (leaderOf o n mk) pad (c0 :: cs) ++ sepS loose) ++ l' :: (numbered (k2 + 1) tl ++ post) =
       (pre ++ numbered k (indentDoc (leaderOf o n mk) pad (c0 :: cs) ++ sepS loose)) ++
-        numbered k2 (wrItems o mk pad loose (n + 1) (it' :: r)) ++ post := by
+        numbered k2 (wrItems trail o mk pad loose (n + 1) (it' :: r)) ++ post := by
     rw [hnext]; simp
   have hpos : pre.length + (cs.length + 1 + (sepS loose).length) =
       (pre ++ numbered k (indentDoc (leaderOf o n mk) pad (c0 :: cs) ++ sepS loose)).length := by
@@ -422,11 +577,11 @@ theorem items_consM (cfg : Cfg) (nw o : Bool) (mk : Char) (pad : Nat) (loose : B
     · exact ⟨n0, rfl, h0, by simp [firstLn, hw']⟩
   rw [hbuf2, hpos]
   rw [hR _ post start k2 _ g _ _ _ (by rw [← hpos]; omega) hg2 hpost hln']
-  simp only [itms, hw, List.length_cons, List.isEmpty_cons, Bool.not_false, Bool.and_true,
+  simp only [itms, hw, List.length_cons, List.isEmpty_cons, Bool.not_false, Bool.and_true, Bool.and_false, Bool.or_false,
     List.reverse_cons, List.append_assoc, List.singleton_append, List.length_append, numbered_length, hlen]
   have e1 : k2 + 1 = k + 1 + (cs.length + 1) + (sepS loose).length := by show k + _ + 1 = _; omega
-  have e2 : (wrItems o mk pad loose n (it :: it' :: r)).length =
-      cs.length + 1 + (sepS loose).length + (wrItems o mk pad loose (n + 1) (it' :: r)).length := by
+  have e2 : (wrItems trail o mk pad loose n (it :: it' :: r)).length =
+      cs.length + 1 + (sepS loose).length + (wrItems trail o mk pad loose (n + 1) (it' :: r)).length := by
     rw [wrItems_cons2, hw, ← List.append_assoc, List.length_append, hlen]
   rw [e1, e2]
   simp only [← Nat.add_assoc, hnext, List.cons_append]
@@ -437,18 +592,21 @@ theorem needM_list (o : Bool) (n : Nat) (mk : Char) (pad : Nat) (loose : Bool) (
     needM (.list o n mk pad loose items) = needItemsM items + 9 := by simp [needM]
 
 /-- the dispatch loop on the first line of a written list: one `List` entry, the cursor on the line behind the list -/
-theorem step_list (cfg : Cfg) (hty : cfg.types = markdownTypes) (nw o : Bool) (n : Nat) (mk : Char) (pad : Nat) (loose : Bool)
-    (items : List (List MB)) (hok : (MB.list o n mk pad loose items).ok nw = true) (hI : ItemsClaimM cfg o mk pad loose n items) :
-    StepClaim cfg (.list o n mk pad loose items) := by
+theorem step_list (cfg : Cfg) (hty : cfg.types = markdownTypes) (nw trail o : Bool) (n : Nat) (mk : Char) (pad : Nat) (loose : Bool)
+    (items : List (List MB)) (hok : (MB.list o n mk pad loose items).ok nw = true) (hI : ItemsClaimM cfg trail o mk pad loose n items) :
+    StepClaim cfg trail (.list o n mk pad loose items) := by
   intro pre post start k st G acc lo hk hg hpost
   have hl := listOkM_of nw o n mk pad loose items hok
   rw [needM_list] at hg
   obtain ⟨g, rfl⟩ : ∃ g, G = g + 9 := ⟨G - 9, by omega⟩
   have hgi : needItemsM items ≤ g := by omega
-  have hpost' : PostOk post := by
-    rcases hpost with h | ⟨nlL, rest, h1, h2, h3⟩
-    · exact Or.inl h
-    · exact Or.inr ⟨nlL, rest, h1, h2, h3 rfl⟩
+  have hpost' : PostI trail o mk post := by
+    cases trail with
+    | true => exact hpost
+    | false =>
+      rcases hpost with h | ⟨nlL, rest, h1, h2, h3⟩
+      · exact Or.inl h
+      · exact Or.inr ⟨nlL, rest, h1, h2, h3 rfl⟩
   cases items with
   | nil => exact absurd rfl hl.ne
   | cons it rest =>
@@ -457,12 +615,12 @@ theorem step_list (cfg : Cfg) (hty : cfg.types = markdownTypes) (nw o : Bool) (n
     obtain ⟨c0, cs, hw⟩ := wrs_cons_of_doc it hdoc
     rw [hw] at htb
     simp only [List.headD_cons] at htb
-    obtain ⟨tl, htl⟩ := wrItems_head o mk pad loose n it rest c0 cs hw
+    obtain ⟨tl, htl⟩ := wrItems_head trail o mk pad loose n it rest c0 cs hw
     obtain ⟨c, m'', hmc, hc⟩ := hm.lead
     have hrl := hI pre post start k st g [] none none hk hgi hpost' (Or.inl ⟨rfl, rfl⟩)
     simp only [List.reverse_nil, List.nil_append] at hrl
     simp only [wr, ent]
-    generalize hL : wrItems o mk pad loose n (it :: rest) = L at hrl htl ⊢
+    generalize hL : wrItems trail o mk pad loose n (it :: rest) = L at hrl htl ⊢
     subst htl
     rw [numbered_cons] at hrl ⊢
     have hls0 : ({ s := leaderOf o n mk ++ List.replicate pad ' ' ++ c0, origin := k + 1 } : Line).s =
@@ -500,121 +658,184 @@ theorem step_list (cfg : Cfg) (hty : cfg.types = markdownTypes) (nw o : Bool) (n
 
 /-! ### Siblings -/
 
-/-- a block, then nothing, a final "\n" line, or a "\n" line and further siblings -/
+/-- a block, then nothing, a final "\n" line, a "\n" line and further siblings — or, behind a list, a list of another type -/
 theorem nodes_stepM (cfg : Cfg) (hty : cfg.types = markdownTypes) (t : MB) (rest : List MB)
-    (hstop : ∀ t' r, rest = t' :: r → isListM t = true → ∃ s0 ss, wr t' = s0 :: ss ∧ StopLine s0)
-    (hT : StepClaim cfg t) (hR : rest ≠ [] → NodesClaimM cfg rest) : NodesClaimM cfg (t :: rest) := by
+    (hsep : ∀ t' r (tail : Bool) (k' : Nat) (b : Line), rest = t' :: r → adj t t' = false → b.s = ['\n'] →
+      PostM false t (b :: numbered k' (wrs (t' :: r) ++ sepS tail)))
+    (hadj : ∀ t' r (tail : Bool) (k' : Nat), rest = t' :: r → adj t t' = true →
+      PostM true t (numbered k' (wrs (t' :: r) ++ sepS tail)))
+    (hT : ∀ tr, StepClaim cfg tr t) (hR : rest ≠ [] → NodesClaimM cfg rest) : NodesClaimM cfg (t :: rest) := by
   intro tail pre start k st gas acc lo hk hg
   rw [needsM_cons] at hg
   obtain ⟨G, rfl⟩ : ∃ G, gas = G + 1 := ⟨gas - 1, by omega⟩
-  let n := (wr t).length
-  let b : Line := { s := ['\n'], origin := k + n + 1 }
   have hmt := mdTypes_len cfg hty
   have hbl := mdTypes_bl cfg hty
   cases rest with
   | nil =>
+    let n := (wr false t).length
+    let b : Line := { s := ['\n'], origin := k + n + 1 }
     rw [wrs_single, ents_single]
     cases tail with
     | false =>
-      have h := hT pre [] start k st G acc lo hk (by omega) (Or.inl rfl)
+      have h := hT false pre [] start k st G acc lo hk (by omega) (Or.inl rfl)
       simp only [sepS, Bool.false_eq_true, if_false, List.append_nil, blankIf] at h ⊢
       rw [h]
       obtain ⟨G', rfl⟩ : ∃ G', G = G' + 1 := ⟨G - 1, by omega⟩
       rw [tokLoop_end]
       simp
     | true =>
-      have hbuf : numbered k (wr t ++ sepS true) = numbered k (wr t) ++ [b] := by rw [numbered_append]; rfl
-      have h := hT pre [b] start k st G acc lo hk (by omega) (Or.inr ⟨b, [], rfl, rfl, by simp⟩)
+      have hbuf : numbered k (wr false t ++ sepS true) = numbered k (wr false t) ++ [b] := by rw [numbered_append]; rfl
+      have h := hT false pre [b] start k st G acc lo hk (by omega) (Or.inr ⟨b, [], rfl, rfl, by simp⟩)
       rw [hbuf, h]
       obtain ⟨G', rfl⟩ : ∃ G', G = G' + 1 := ⟨G - 1, by omega⟩
-      have h2 := tokLoop_nl_step cfg G' (by rw [hmt]; omega) b (pre ++ numbered k (wr t)) [] start st (ent (k + 1) t :: acc) lo rfl
+      have h2 := tokLoop_nl_step cfg G' (by rw [hmt]; omega) b (pre ++ numbered k (wr false t)) [] start st (ent false (k + 1) t :: acc) lo rfl
       rw [hbl] at h2
       simp only [if_true] at h2
       rw [h2]
       obtain ⟨G'', rfl⟩ : ∃ G'', G' = G'' + 1 := ⟨G' - 1, by omega⟩
       rw [List.append_nil, tokLoop_end]
       simp only [List.reverse_cons, List.append_assoc, List.singleton_append, List.length_append, numbered_length, blankIf, if_true]
-      have e1 : start + (pre.length + (wr t).length) = k + 1 + (wr t).length := by omega
-      have e2 : b.origin = k + 1 + (wr t).length := by show k + n + 1 = _; omega
+      have e1 : start + (pre.length + (wr false t).length) = k + 1 + (wr false t).length := by omega
+      have e2 : b.origin = k + 1 + (wr false t).length := by show k + n + 1 = _; omega
       rw [e1, e2]
   | cons t' r =>
-    rw [wrs_cons2, ents_cons2]
-    have hlines : numbered k (wr t ++ ['\n'] :: wrs (t' :: r) ++ sepS tail) =
-        numbered k (wr t) ++ b :: numbered (k + n + 1) (wrs (t' :: r) ++ sepS tail) := by
-      rw [List.append_assoc, numbered_append, List.cons_append, numbered_cons]
-    have hpostM : PostM t (b :: numbered (k + n + 1) (wrs (t' :: r) ++ sepS tail)) := by
-      refine Or.inr ⟨b, _, rfl, rfl, ?_⟩
-      intro hli s hs
-      obtain ⟨s0, ss, hs0, hst⟩ := hstop t' r rfl hli
-      have hhead : ∃ ss', wrs (t' :: r) ++ sepS tail = s0 :: ss' := by
-        cases r with
-        | nil => rw [wrs_single, hs0]; exact ⟨_, rfl⟩
-        | cons a b => rw [wrs_cons2, hs0]; exact ⟨_, rfl⟩
-      obtain ⟨ss', hss'⟩ := hhead
-      rw [hss', numbered_cons] at hs
-      simp only [List.head?_cons, Option.some.injEq] at hs
-      subst hs
-      exact hst
-    have h := hT pre _ start k st G acc lo hk (by omega) hpostM
-    rw [hlines, h]
-    obtain ⟨G', rfl⟩ : ∃ G', G = G' + 1 := ⟨G - 1, by omega⟩
-    have h2 := tokLoop_nl_step cfg G' (by rw [hmt]; omega) b (pre ++ numbered k (wr t))
-      (numbered (k + n + 1) (wrs (t' :: r) ++ sepS tail)) start st (ent (k + 1) t :: acc) lo rfl
-    rw [hbl] at h2
-    simp only [if_true] at h2
-    rw [h2]
-    have hlen : (pre ++ numbered k (wr t) ++ [b]).length = pre.length + n + 1 := by
-      simp only [List.length_append, numbered_length, List.length_cons, List.length_nil]; rfl
-    have ih := hR (by simp) tail (pre ++ numbered k (wr t) ++ [b]) start (k + n + 1) st G'
-      (.blankLine (start + (pre ++ numbered k (wr t)).length) b.origin :: ent (k + 1) t :: acc) lo
-      (by rw [hlen]; omega) (by omega)
-    rw [ih]
-    simp only [List.reverse_cons, List.append_assoc, List.singleton_append, List.length_append, numbered_length, List.length_cons]
-    have e1 : start + (pre.length + (wr t).length) = k + 1 + (wr t).length := by omega
-    have e2 : b.origin = k + 1 + (wr t).length := by show k + n + 1 = _; omega
-    have e3 : k + n + 1 + 1 = k + 1 + (wr t).length + 1 := by show k + (wr t).length + 1 + 1 = _; omega
-    have e4 : k + 1 + (wr t).length + 1 + (wrs (t' :: r)).length = k + 1 + ((wr t).length + ((wrs (t' :: r)).length + 1)) := by omega
-    rw [e1, e2, e3, e4]
-    simp
+    cases ha : adj t t' with
+    | false =>
+      let n := (wr false t).length
+      let b : Line := { s := ['\n'], origin := k + n + 1 }
+      rw [wrs_cons_sep t t' r ha, ents_cons_sep _ t t' r ha]
+      have hlines : numbered k (wr false t ++ ['\n'] :: wrs (t' :: r) ++ sepS tail) =
+          numbered k (wr false t) ++ b :: numbered (k + n + 1) (wrs (t' :: r) ++ sepS tail) := by
+        rw [List.append_assoc, numbered_append, List.cons_append, numbered_cons]
+      have h := hT false pre _ start k st G acc lo hk (by omega) (hsep t' r tail (k + n + 1) b rfl ha rfl)
+      rw [hlines, h]
+      obtain ⟨G', rfl⟩ : ∃ G', G = G' + 1 := ⟨G - 1, by omega⟩
+      have h2 := tokLoop_nl_step cfg G' (by rw [hmt]; omega) b (pre ++ numbered k (wr false t))
+        (numbered (k + n + 1) (wrs (t' :: r) ++ sepS tail)) start st (ent false (k + 1) t :: acc) lo rfl
+      rw [hbl] at h2
+      simp only [if_true] at h2
+      rw [h2]
+      have hlen : (pre ++ numbered k (wr false t) ++ [b]).length = pre.length + n + 1 := by
+        simp only [List.length_append, numbered_length, List.length_cons, List.length_nil]; rfl
+      have ih := hR (by simp) tail (pre ++ numbered k (wr false t) ++ [b]) start (k + n + 1) st G'
+        (.blankLine (start + (pre ++ numbered k (wr false t)).length) b.origin :: ent false (k + 1) t :: acc) lo
+        (by rw [hlen]; omega) (by omega)
+      rw [ih]
+      simp only [List.reverse_cons, List.append_assoc, List.singleton_append, List.length_append, numbered_length, List.length_cons]
+      have e1 : start + (pre.length + (wr false t).length) = k + 1 + (wr false t).length := by omega
+      have e2 : b.origin = k + 1 + (wr false t).length := by show k + n + 1 = _; omega
+      have e3 : k + n + 1 + 1 = k + 1 + (wr false t).length + 1 := by show k + (wr false t).length + 1 + 1 = _; omega
+      have e4 : k + 1 + (wr false t).length + 1 + (wrs (t' :: r)).length =
+          k + 1 + ((wr false t).length + ((wrs (t' :: r)).length + 1)) := by omega
+      rw [e1, e2, e3, e4]
+      simp
+    | true =>
+      let n := (wr true t).length
+      rw [wrs_cons_adj t t' r ha, ents_cons_adj _ t t' r ha]
+      have hlines : numbered k (wr true t ++ wrs (t' :: r) ++ sepS tail) =
+          numbered k (wr true t) ++ numbered (k + n) (wrs (t' :: r) ++ sepS tail) := by
+        rw [List.append_assoc, numbered_append]
+      have h := hT true pre _ start k st G acc lo hk (by omega) (hadj t' r tail (k + n) rfl ha)
+      rw [hlines, h]
+      have hlen : (pre ++ numbered k (wr true t)).length = pre.length + n := by
+        simp only [List.length_append, numbered_length]; rfl
+      have ih := hR (by simp) tail (pre ++ numbered k (wr true t)) start (k + n) st G (ent true (k + 1) t :: acc) lo
+        (by rw [hlen]; omega) (by omega)
+      rw [ih]
+      simp only [List.reverse_cons, List.append_assoc, List.singleton_append, List.length_append]
+      have e3 : k + n + 1 = k + 1 + (wr true t).length := by show k + (wr true t).length + 1 = _; omega
+      have e4 : k + 1 + (wr true t).length + (wrs (t' :: r)).length = k + 1 + ((wr true t).length + (wrs (t' :: r)).length) := by omega
+      rw [e3, e4]
+      simp
 
-theorem step_leaf (cfg : Cfg) (hty : cfg.types = markdownTypes) (b : Blk) (hok : b.ok = true) : StepClaim cfg (.leaf b) := by
+theorem step_leaf (cfg : Cfg) (hty : cfg.types = markdownTypes) (tr : Bool) (b : Blk) (hok : b.ok = true) : StepClaim cfg tr (.leaf b) := by
   intro pre post start k st G acc lo hk hg hpost
-  obtain ⟨g, rfl⟩ : ∃ g, G = g + 11 := ⟨G - 11, by simp only [needM] at hg; omega⟩
-  have hb : ∀ x, post.head? = some x → x.s = ['\n'] := by
-    rcases hpost with rfl | ⟨nlL, rest, rfl, h, _⟩
-    · simp
-    · intro x hx
-      simp only [List.head?_cons, Option.some.injEq] at hx
-      subst hx; exact h
-  have := tokLoop_leaf_step cfg hty b hok g pre post k hb start st acc lo
-  simp only [wr, ent]
-  rw [this, hk]
+  cases tr with
+  | true => exact absurd hpost (by simp [PostM])
+  | false =>
+    obtain ⟨g, rfl⟩ : ∃ g, G = g + 11 := ⟨G - 11, by simp only [needM] at hg; omega⟩
+    have hb : ∀ x, post.head? = some x → x.s = ['\n'] := by
+      rcases hpost with rfl | ⟨nlL, rest, rfl, h, _⟩
+      · simp
+      · intro x hx
+        simp only [List.head?_cons, Option.some.injEq] at hx
+        subst hx; exact h
+    have := tokLoop_leaf_step cfg hty b hok g pre post k hb start st acc lo
+    simp only [wr, ent]
+    rw [this, hk]
 
-theorem sep_stop (nw : Bool) (t t' : MB) (r : List MB) (hsep : sepOkM t t' = true) (hok' : MB.oks nw (t' :: r) = true)
-    (hli : isListM t = true) : ∃ s0 ss, wr t' = s0 :: ss ∧ StopLine s0 := by
-  simp only [sepOkM, hli, Bool.not_true, Bool.false_or, Bool.and_eq_true, Bool.not_eq_eq_eq_not] at hsep
-  obtain ⟨hnl, hsb⟩ := hsep
+/-- behind a list, after the "\n" line: a block that is no list -/
+theorem postM_sep (nw : Bool) (t t' : MB) (r : List MB) (hli : isListM t = true) (hsep : sepOkM t t' = true)
+    (hok' : MB.oks nw (t' :: r) = true) (ha : adj t t' = false) (tail : Bool) (k' : Nat) (b : Line) (hb : b.s = ['\n']) :
+    PostM false t (b :: numbered k' (wrs (t' :: r) ++ sepS tail)) := by
+  refine Or.inr ⟨b, _, rfl, hb, ?_⟩
+  intro _ s hs
+  have hnl : isListM t' = false := by simpa [adj, hli] using ha
+  simp only [sepOkM, hli, Bool.not_true, Bool.false_or, hnl, Bool.false_eq_true, if_false] at hsep
+  have hok1 := (oksM_cons nw _ _ hok').1
+  obtain ⟨ss, hss⟩ := wrs_head nw t' r hok1 tail
+  rw [hss, numbered_cons] at hs
+  simp only [List.head?_cons, Option.some.injEq] at hs
+  subst hs
   cases t' with
   | list => simp [isListM] at hnl
-  | leaf b =>
-    have hbok : b.ok = true := by
-      have := (oksM_cons nw _ _ hok').1
-      simpa [MB.ok] using this
-    have hne := item_lines_len_pos b hbok
-    cases hb : b.lines with
-    | nil => exact absurd hb hne
-    | cons s0 ss =>
-      simp only [wr, hb, List.headD_cons] at hsb ⊢
-      exact ⟨s0, ss, rfl, stopLine_ofM s0 hsb (nlEnd_of_oneLine s0 (item_oneLine b hbok s0 (by rw [hb]; simp)))⟩
+  | leaf bl =>
+    have hbok : bl.ok = true := by simpa [MB.ok] using hok1
+    have hne := item_lines_len_pos bl hbok
+    cases hbl : bl.lines with
+    | nil => exact absurd hbl hne
+    | cons s0 ss0 =>
+      have hf : firstOf (.leaf bl) = s0 := by simp [firstOf, wr, hbl]
+      simp only [wr, hbl, List.headD_cons] at hsep
+      show StopLine (firstOf (.leaf bl))
+      rw [hf]
+      exact stopLine_ofM s0 hsep (nlEnd_of_oneLine s0 (item_oneLine bl hbok s0 (by rw [hbl]; simp)))
+
+/-- behind a list, directly: a list of another type -/
+theorem postM_adj (nw : Bool) (o : Bool) (n : Nat) (mk : Char) (pad : Nat) (loose : Bool) (items : List (List MB))
+    (t' : MB) (r : List MB) (hsep : sepOkM (.list o n mk pad loose items) t' = true)
+    (hok' : MB.oks nw (t' :: r) = true) (ha : adj (.list o n mk pad loose items) t' = true) (tail : Bool) (k' : Nat) :
+    PostM true (.list o n mk pad loose items) (numbered k' (wrs (t' :: r) ++ sepS tail)) := by
+  have hli : isListM t' = true := by simpa [adj, isListM] using ha
+  have hok1 := (oksM_cons nw _ _ hok').1
+  obtain ⟨ss, hss⟩ := wrs_head nw t' r hok1 tail
+  rw [hss, numbered_cons]
+  refine ⟨_, _, rfl, ?_⟩
+  cases t' with
+  | leaf => simp [isListM] at hli
+  | list o' n' mk' pad' loose' items' =>
+    have hl' := listOkM_of nw o' n' mk' pad' loose' items' hok1
+    cases items' with
+    | nil => exact absurd rfl hl'.ne
+    | cons it' r' =>
+      obtain ⟨_, _, hlead', hdoc', htb', _⟩ := okItemsM_cons nw o' mk' pad' n' it' r' hl'.its
+      have hm' := listLeader_of o' _ hlead'
+      obtain ⟨c0', cs', hw'⟩ := wrs_cons_of_doc it' hdoc'
+      rw [hw'] at hdoc' htb'
+      simp only [List.headD_cons] at htb'
+      obtain ⟨⟨ch', r0', rfl, hch'⟩, _, _⟩ := itemDoc_facts c0' cs' hdoc'
+      obtain ⟨tl, htl⟩ := wrItems_head false o' mk' pad' loose' n' it' r' (ch' :: r0') cs' hw'
+      have hf : firstOf (.list o' n' mk' pad' loose' (it' :: r')) = leaderOf o' n' mk' ++ List.replicate pad' ' ' ++ ch' :: r0' := by
+        simp [firstOf, wr, htl]
+      obtain ⟨c, m'', hmc, hc⟩ := hm'.lead
+      show OtherList o mk (firstOf (.list o' n' mk' pad' loose' (it' :: r')))
+      rw [hf]
+      refine ⟨c, m'' ++ List.replicate pad' ' ' ++ ch' :: r0', _, by rw [hmc]; simp, hc,
+        parseMarker_first _ hm' pad' hl'.p1 hl'.p4 ch' r0' hch', htb', ?_⟩
+      intro n0 h0
+      exact otherType_marker o o' mk mk' n0 n' (by simpa [sepOkM, isListM, otherTypeB] using hsep) h0 hlead'
 
 /-! ### The induction over the tree -/
 
-theorem items_stepM (cfg : Cfg) (nw o : Bool) (mk : Char) (pad : Nat) (loose : Bool) (n : Nat) (it : List MB) (rest : List (List MB))
+theorem items_stepM (cfg : Cfg) (trail nw o : Bool) (mk : Char) (pad : Nat) (loose : Bool) (n : Nat) (it : List MB) (rest : List (List MB))
     (h1 : 1 ≤ pad) (h4 : pad ≤ 4) (hok : MB.okItems nw o mk pad n (it :: rest) = true) (hN : NodesClaimM cfg it)
-    (hR : rest ≠ [] → ItemsClaimM cfg o mk pad loose (n + 1) rest) : ItemsClaimM cfg o mk pad loose n (it :: rest) := by
+    (hR : rest ≠ [] → ItemsClaimM cfg trail o mk pad loose (n + 1) rest) : ItemsClaimM cfg trail o mk pad loose n (it :: rest) := by
   cases rest with
-  | nil => exact items_lastM cfg nw o mk pad loose n it h1 h4 hok hN
-  | cons it' r => exact items_consM cfg nw o mk pad loose n it it' r h1 h4 hok hN (hR (by simp))
+  | nil =>
+    cases trail with
+    | false => exact items_lastM cfg nw o mk pad loose n it h1 h4 hok hN
+    | true => exact items_lastT cfg nw o mk pad loose n it h1 h4 hok hN
+  | cons it' r => exact items_consM cfg trail nw o mk pad loose n it it' r h1 h4 hok hN (hR (by simp))
 
 mutual
 /-- **siblings** (any blocks of the fragment), at the end of a buffer -/
@@ -622,29 +843,36 @@ theorem nodes_claimM (cfg : Cfg) (hty : cfg.types = markdownTypes) (nw : Bool) :
     ∀ (ts : List MB), MB.oks nw ts = true → ts ≠ [] → NodesClaimM cfg ts
   | [], _, hne => absurd rfl hne
   | .leaf b :: rest, h, _ =>
-    nodes_stepM cfg hty _ rest (fun _ _ _ hli => by simp [isListM] at hli)
-      (step_leaf cfg hty b (by simpa [MB.ok] using (oksM_cons nw _ _ h).1))
+    nodes_stepM cfg hty _ rest
+      (fun t' r tail k' b' _ _ hb => Or.inr ⟨b', _, rfl, hb, by intro hli; simp [isListM] at hli⟩)
+      (fun t' r tail k' _ ha => by simp [adj, isListM] at ha)
+      (fun tr => step_leaf cfg hty tr b (by simpa [MB.ok] using (oksM_cons nw _ _ h).1))
       (fun hne => nodes_claimM cfg hty nw rest (oksM_cons nw _ _ h).2.1 hne)
   | .list o n mk pad loose items :: rest, h, _ =>
     have hl := listOkM_of nw o n mk pad loose items (oksM_cons nw _ _ h).1
     nodes_stepM cfg hty _ rest
-      (fun t' r e hli => sep_stop nw _ t' r ((oksM_cons nw _ _ h).2.2 t' r e) (by rw [← e]; exact (oksM_cons nw _ _ h).2.1) hli)
-      (step_list cfg hty nw o n mk pad loose items (oksM_cons nw _ _ h).1
-        (items_claimM cfg hty nw o mk pad loose hl.p1 hl.p4 n items hl.its hl.ne))
+      (fun t' r tail k' b' e ha hb =>
+        postM_sep nw _ t' r rfl ((oksM_cons nw _ _ h).2.2 t' r e) (by rw [← e]; exact (oksM_cons nw _ _ h).2.1) ha tail k' b' hb)
+      (fun t' r tail k' e ha =>
+        postM_adj nw o n mk pad loose items t' r ((oksM_cons nw _ _ h).2.2 t' r e) (by rw [← e]; exact (oksM_cons nw _ _ h).2.1) ha tail k')
+      (fun tr => step_list cfg hty nw tr o n mk pad loose items (oksM_cons nw _ _ h).1
+        (items_claimM cfg hty nw tr o mk pad loose hl.p1 hl.p4 n items hl.its hl.ne))
       (fun hne => nodes_claimM cfg hty nw rest (oksM_cons nw _ _ h).2.1 hne)
 /-- **the items of a list**, anywhere in a buffer -/
-theorem items_claimM (cfg : Cfg) (hty : cfg.types = markdownTypes) (nw o : Bool) (mk : Char) (pad : Nat) (loose : Bool)
+theorem items_claimM (cfg : Cfg) (hty : cfg.types = markdownTypes) (nw trail o : Bool) (mk : Char) (pad : Nat) (loose : Bool)
     (h1 : 1 ≤ pad) (h4 : pad ≤ 4) :
-    ∀ (n : Nat) (items : List (List MB)), MB.okItems nw o mk pad n items = true → items ≠ [] → ItemsClaimM cfg o mk pad loose n items
+    ∀ (n : Nat) (items : List (List MB)), MB.okItems nw o mk pad n items = true → items ≠ [] →
+      ItemsClaimM cfg trail o mk pad loose n items
   | _, [], _, hne => absurd rfl hne
   | n, it :: rest, h, _ =>
-    items_stepM cfg nw o mk pad loose n it rest h1 h4 h
+    items_stepM cfg trail nw o mk pad loose n it rest h1 h4 h
       (nodes_claimM cfg hty nw it (okItemsM_cons nw o mk pad n it rest h).2.1 (okItemsM_cons nw o mk pad n it rest h).1)
-      (fun hne => items_claimM cfg hty nw o mk pad loose h1 h4 (n + 1) rest (okItemsM_cons nw o mk pad n it rest h).2.2.2.2.2 hne)
+      (fun hne => items_claimM cfg hty nw trail o mk pad loose h1 h4 (n + 1) rest (okItemsM_cons nw o mk pad n it rest h).2.2.2.2.2 hne)
 end
 
 /-- **the block parse of a written forest, in every parser state**: one entry per block, one `BlankLine` per separator
-    line; the buffer is not loose; the state is unchanged (no definitions, `parse_setext` untouched) -/
+    line (between two lists: inside the last item of the first); the buffer is not loose; the state is unchanged (no
+    definitions, `parse_setext` untouched) -/
 theorem tokenize_nodes (cfg : Cfg) (hty : cfg.types = markdownTypes) (nw : Bool) (ts : List MB) (hok : MB.oks nw ts = true)
     (hne : ts ≠ []) (gas : Nat) (st : St) :
     tokenizeBlock cfg (gas + (needsM ts + 1)) (numbered 0 (wrs ts)) 1 st =
